@@ -73,3 +73,8 @@ Definition astep' (s : astate) (o : aop) : astate := match astep s o with Some s
 Definition aruns (s : astate) (os : list aop) : astate := fold_left astep' os s.
 (* a server just started from a disk whose bitmap marks `d` *)
 Definition a_init (d : gset N) : astate := {| a_mem := d; a_disk := d; a_txns := ∅ |}.
+
+(* ---- for the correspondence run (harness `atmodel`) ---- *)
+Definition a_init_list (l : list N) : astate := a_init (list_to_set l).
+Definition a_disk_list (s : astate) : list N := elements (a_disk s).
+Definition a_mem_size (s : astate) : nat := size (a_mem s).
